@@ -1290,4 +1290,89 @@ theorem pb_init {cfg : Cfg} {m : Nat} (hc : CostLen cfg.env m) {init : List Vec}
     subst hg
     rfl
 
+/-! ## PSOGA flight -/
+
+theorem velCoordsGA_band (d : VelDraw) : ∀ (ps : List Param) (xs bs gs r : List Rat),
+    (∀ p ∈ ps, p.lb ≤ p.ub) → velCoordsGA d ps xs bs gs = some r → r.length = xs.length ∧ InBand ps r := by
+  intro ps
+  induction ps with
+  | nil =>
+    intro xs bs gs r _ h
+    cases xs with
+    | nil =>
+      simp only [velCoordsGA, Option.some.injEq] at h
+      subst h; exact ⟨rfl, by intro pc hpc; simp at hpc⟩
+    | cons x xs => simp [velCoordsGA] at h
+  | cons p ps ih =>
+    intro xs bs gs r hb h
+    cases xs with
+    | nil =>
+      simp only [velCoordsGA, Option.some.injEq] at h
+      subst h; exact ⟨rfl, by intro pc hpc; simp at hpc⟩
+    | cons x xs =>
+      cases bs with
+      | nil => simp [velCoordsGA] at h
+      | cons b bs =>
+        cases gs with
+        | nil => simp [velCoordsGA] at h
+        | cons g gs =>
+          simp only [velCoordsGA] at h
+          cases hr : velCoordsGA d ps xs bs gs with
+          | none => simp [hr] at h
+          | some r' =>
+            simp only [hr, Option.some.injEq] at h
+            subst h
+            obtain ⟨hl, hband⟩ := ih xs bs gs r' (fun q hq => hb q (by simp [hq])) hr
+            refine ⟨by simp [hl], ?_⟩
+            intro pc hpc
+            simp only [List.zip_cons_cons, List.mem_cons] at hpc
+            rcases hpc with rfl | hpc
+            · exact speedConstriction_band _ _ _ (hb p (by simp))
+            · exact hband pc hpc
+
+theorem psogaFlight_spec {params : List Param} (hb : ∀ p ∈ params, p.lb ≤ p.ub) {leaders ps : List Particle}
+    {ds : List VelDraw} {r : List Particle × List Particle} (h : psogaFlight params leaders ps ds = some r) :
+    r.1.length = ps.length ∧ r.2.length = ps.length ∧
+    (∀ v ∈ r.1, v.vel.length = v.d.vec.length ∧ InBand params v.vel) ∧
+    ((∀ p ∈ ps, p.d.vec.length = params.length) → ∀ q ∈ r.2, Variation.inBoxExact params q.d.vec = true) := by
+  unfold psogaFlight at h
+  cases h1 : zipMapOpt (velOneGA params leaders) ps ds with
+  | none => simp [h1] at h
+  | some vel =>
+    cases h2 : mapOpt (posOneGA params) vel with
+    | none => simp [h1, h2] at h
+    | some pos =>
+      simp only [h1, h2, Option.some.injEq] at h
+      subst h
+      have V := zipMapOpt_forall₂ h1
+      have P := mapOpt_forall₂ h2
+      have hv : ∀ v ∈ vel, ∃ p ∈ ps, v.d = p.d ∧ v.vel.length = v.d.vec.length ∧ InBand params v.vel := by
+        intro v hv
+        obtain ⟨p, hp, d, hd⟩ := forall₂_mem_right V v hv
+        unfold velOneGA at hd
+        split at hd
+        · cases hd
+        · rename_i g _
+          cases hc : velCoordsGA d params p.d.vec p.bestVec g.d.vec with
+          | none => simp [hc] at hd
+          | some vv =>
+            simp only [hc, Option.some.injEq] at hd
+            subst hd
+            obtain ⟨hl, hband⟩ := velCoordsGA_band _ _ _ _ _ _ hb hc
+            exact ⟨p, hp, rfl, hl, hband⟩
+      refine ⟨V.length_eq.symm, by rw [← P.length_eq]; exact V.length_eq.symm, ?_, ?_⟩
+      · intro v hv'
+        obtain ⟨_, _, _, a, b⟩ := hv v hv'
+        exact ⟨a, b⟩
+      · intro hlen q hq
+        obtain ⟨v, hv', hd⟩ := forall₂_mem_right P q hq
+        obtain ⟨p, hp, e, _, _⟩ := hv v hv'
+        unfold posOneGA at hd
+        cases hc : posCoords (-1) params v.d.vec v.vel with
+        | none => simp [hc] at hd
+        | some rr =>
+          simp only [hc, Option.some.injEq] at hd
+          subst hd
+          exact posCoords_exact _ _ _ _ _ hb (by rw [e]; exact hlen p hp) hc
+
 end Artap.SwarmRun
